@@ -24,6 +24,24 @@ db.Setting = y
 """,
         what="`y = x` aliases y to x's register; the later `x = x + 1` changes y",
     ),
+    "chained_comparison": dict(
+        src=HDR + """
+a = d0.Setting
+if 0 < a < 10:
+    db.Setting = 1
+else:
+    db.Setting = 2
+""",
+        what="chained comparison `0 < a < 10`: only the first comparison is compiled",
+    ),
+    "for_var_after_loop": dict(
+        src=HDR + """
+for i in range(3):
+    db.Setting = i
+db.Mode = i
+""",
+        what="loop variable read after a for-range loop holds the first value past the range (3), not the last one (2)",
+    ),
     "jump_table": dict(
         src=HDR + """
 db.Setting = [90, 91, 92, 93, 94, 95][d0.On]
